@@ -57,7 +57,29 @@ def applyOp (acc : State × List String) (toks : List String) : Option (State ×
     let k ← k.toNat?
     let dst ← dst.toNat?
     let n ← n.toNat?
-    if dst ≥ 4 || n > 2000 || !(sel == "c" || sel == "*") || !(mode == "b" || mode == "f") then none else
+    if dst ≥ 4 || n > 2000 || !(sel == "c" || sel == "*") ||
+        !(mode == "b" || mode == "f" || mode == "t" || mode == "T") then none else
+    if mode == "t" || mode == "T" then
+      -- load TOWARDS k from peer connection `dst`: both registered, different endpoints, k active
+      let p := dst
+      match s.conns k, s.conns p with
+      | some x, some y =>
+        if p == k || !(phaseIs s k .registered) || !(phaseIs s p .registered) || x.owner == y.owner ||
+            (s.entries x.owner).head? != some k then some (s, rs ++ ["-"])
+        else
+          -- packets queued for k before the call, the call, more packets while k is still registered
+          let pre := if mode == "T" then 19 else min n 19
+          let s1 := (List.range pre).foldl (fun s _ => step s (.enqueue k)) s
+          let d0 := s1.delivered k
+          let s2 := step s1 (.disconnect x.owner (if sel == "c" then some k else none))
+          let r := s2.results.getLast?.getD false
+          let post := if mode == "T" then 64 else n - pre
+          let s3 := (List.range post).foldl (fun s _ => step s (.enqueue k)) s2
+          let s4 := settle (actorRound (actorRound s3))
+          let tag := if s4.delivered k > d0 + 2 then "served" else if inRegistry s4 k then "open" else "q"
+          some (s4, rs ++ [s!"{r}+{tag}"])
+      | _, _ => some (s, rs ++ ["-"])
+    else
     if !(phaseIs s k .registered) then some (s, rs ++ ["-"]) else
     match s.conns k with
     | none => some (s, rs ++ ["-"])
